@@ -62,7 +62,7 @@ def main():
         "newline, nbdime's lines already there, *.ipynb routed to another driver; absent / no-final-newline otherwise), "
         "3 locations of the global attributes file (default, XDG_CONFIG_HOME, core.attributesfile). Two commands in one "
         "scope: 144 ordered pairs x 4 presence patterns x 2 attributes variants per written scope" +
-        ("" if t == "quick" else "; two commands in mixed scopes over the full initial space; three commands in one scope") +
+        ("" if t == "quick" else "; two commands in mixed scopes and three commands in one scope over the reduced initial space") +
         ". All pre-existing setting VALUES are symbolic strings (may or may not equal 'nbdime').")
     chk.outside += ["--system scope", "running outside a repository", "multi-valued keys and include directives in git configuration",
                     "git's own use of the entries (attribute matching, check-attr)", "longer command sequences"]
